@@ -46,6 +46,8 @@ structure Params where
   /-- scheduling slack granted to wall-clock bounds, µs -/
   slack : Nat
   nHooks : Nat
+  /-- `shutdownTimeout`, the hard cap inside `standard.transport.Shutdown`, µs -/
+  maxWait : Nat := 30000000
 
 abbrev Trace := Array TEv
 
@@ -70,6 +72,23 @@ def isTnil : Ev → Bool | .T _ "nil" => true | _ => false
 def isFlipWitness : Ev → Bool | .HS _ => true | .T _ _ => true | _ => false
 
 def isS : Ev → Bool | .S _ => true | _ => false
+
+/-- the event at position `i` is the return of a `Shutdown` call that proves that the engine status has
+left `running`: any return except an `errStatusNotRunning` given to a call that was made before the
+listener answered (an engine that has not been started reports that error too, and may be started
+and serve normally afterwards) -/
+def retFlipAt (tr : Trace) (i : Nat) : Bool :=
+  match evAt tr i with
+  | some ⟨.T k err, _⟩ =>
+    err != "notrunning" ||
+      (match idxOf? tr (· == .S k) with
+       | some s => existsBefore tr s (· == .L)
+       | none => false)
+  | _ => false
+
+/-- position `i` proves that the status has left `running`: a hook started, or `retFlipAt` -/
+def flipAt (tr : Trace) (i : Nat) : Bool :=
+  (match evAt tr i with | some ⟨.HS _, _⟩ => true | _ => false) || retFlipAt tr i
 
 /-- every clause returns the list of violations it finds (empty = holds).
 
@@ -101,7 +120,7 @@ def lateDropped (tr : Trace) : Nat :=
 
 def closeAfterShutdown (tr : Trace) : List String :=
   let running := existsBefore tr tr.size (· == .L)
-  match idxOf? tr isFlipWitness with
+  match (List.range tr.size).find? (flipAt tr) with
   | none => []
   | some f =>
     if !running then [] else
@@ -159,21 +178,26 @@ def bounded (p : Params) (tr : Trace) : List String :=
 def errOf (tr : Trace) (k : Nat) : Option String :=
   tr.toList.findSome? fun e => match e.ev with | .T k' err => if k' == k then some err else none | _ => none
 
-def errorsReported (tr : Trace) : List String :=
+def errorsReported (p : Params) (tr : Trace) : List String :=
   (List.range tr.size).filterMap fun i =>
     match evAt tr i with
-    | some ⟨.S k, _⟩ =>
+    | some ⟨.S k, ts⟩ =>
       let running := existsBefore tr i (· == .L)
-      let someReturned := existsBefore tr i isT
+      -- some call has returned before this one was made, in a way that shows that the status had flipped
+      let someReturned := (List.range i).any (retFlipAt tr)
       -- another caller is in flight before this one returns: either of them may be the one that does the work
       let retIdx := (idxOf? tr (fun e => match e with | .T k' _ => k' == k | _ => false)).getD tr.size
       let otherCalled := existsBefore tr retIdx (fun e => match e with | .S k' => k' != k | _ => false)
+      -- the listener answered before this call returned (a call made earlier may still find the engine running)
+      let runningAtRet := existsBefore tr retIdx (· == .L)
       match errOf tr k with
       | none => none
       | some err =>
-        if (!running || someReturned) && err != "notrunning" then
+        if (!runningAtRet || someReturned) && err != "notrunning" then
           some s!"second_shutdown_errors: caller {k} (server not running / already shut down) got {err}"
-        else if running && !someReturned && !otherCalled && err != "nil" then
+        -- `errShutdownTimeout` is legitimate once the call has lasted longer than the transport's cap
+        else if running && !someReturned && !otherCalled && err != "nil" &&
+            !(err == "timeout" && p.maxWait < timeAt tr retIdx - ts) then
           some s!"first shutdown of a running server returned {err}"
         else none
     | _ => none
@@ -210,6 +234,43 @@ def hooksRun (p : Params) (tr : Trace) : List String :=
         | _ => none
       a ++ b ++ c
 
+/-- `Shutdown` returns before its deadline only once every connection is gone (the transport waits for
+`active = 0`, i.e. for every connection goroutine to have finished, and the listener is closed): after
+an early return of the winning call no request enters a handler any more -/
+def connsWaited (p : Params) (tr : Trace) : List String :=
+  match winnerRet tr with
+  | none => []
+  | some w =>
+    match winnerCall tr w with
+    | none => []
+    | some s =>
+      if !(timeAt tr w - timeAt tr s + 2000 < p.exitWait) then [] else
+      (List.range tr.size).filterMap fun i =>
+        match evAt tr i with
+        | some ⟨.Q c k _, _⟩ =>
+          if w < i then
+            some s!"conns_waited: Shutdown returned before the deadline, yet request {k} of connection {c} entered its handler afterwards"
+          else none
+        | _ => none
+
+/-- the client's close of connection `c` at position `i` ends the connection as far as the server is
+concerned only if the connection is idle then and stays so: every request of `c` that entered its
+handler before `i` has been answered (complete response read before `i`), and no request of `c` enters
+a handler after `i`.  (A client that hangs up while its request is in the handler does not stop the
+handler; `Shutdown` rightly keeps waiting for it.) -/
+def idleClose (tr : Trace) (c i : Nat) : Bool :=
+  (List.range tr.size).all fun j =>
+    match evAt tr j with
+    | some ⟨.Q c' k _, _⟩ =>
+      c' != c || (j < i && existsBefore tr i (fun e => e == .R c k true true || e == .R c k false true))
+    | _ => true
+
+/-- position `i` ends connection `c`: the client saw EOF, or closed the idle connection itself -/
+def connEndAt (tr : Trace) (c i : Nat) : Bool :=
+  match evAt tr i with
+  | some e => e.ev == .E c || (e.ev == .C c && idleClose tr c i)
+  | none => false
+
 /-- nothing left to wait for, but the call still sat out the exit wait -/
 def prompt (p : Params) (tr : Trace) : List String :=
   match winnerRet tr with
@@ -223,7 +284,7 @@ def prompt (p : Params) (tr : Trace) : List String :=
       if tt - ts + 2000 < p.exitWait then [] else
       let hooksEnd := (List.range p.nHooks).map fun j => (idxOf? tr (· == .HE j)).map (timeAt tr)
       let conns := (List.range tr.size).filterMap fun i => match evAt tr i with | some ⟨.A c, _⟩ => some c | _ => none
-      let connsEnd := conns.map fun c => (idxOf? tr (fun e => e == .E c || e == .C c)).map (timeAt tr)
+      let connsEnd := conns.map fun c => ((List.range tr.size).find? (connEndAt tr c)).map (timeAt tr)
       let all := hooksEnd ++ connsEnd
       if all.any (·.isNone) then [] else
       let q := (all.filterMap id).foldl max ts
@@ -233,6 +294,6 @@ def prompt (p : Params) (tr : Trace) : List String :=
 
 def violations (p : Params) (tr : Trace) : List String :=
   inflightComplete tr ++ closeAfterShutdown tr ++ noSpuriousClose tr ++ noAcceptAfter tr ++ bounded p tr ++
-  errorsReported tr ++ hooksRun p tr ++ prompt p tr
+  errorsReported p tr ++ hooksRun p tr ++ connsWaited p tr ++ prompt p tr
 
 end Hertz.ShutdownSpec
